@@ -3,6 +3,7 @@ import Poulpy.Model.HalSpec
 import Poulpy.Model.VecNorm
 import Poulpy.Model.Ring
 import Poulpy.Model.Core.Basic
+import Poulpy.Model.Core.Ks
 
 /-!
 External products and CMux (`poulpy-core/src/external_product/{glwe,gglwe,ggsw}.rs`,
@@ -64,8 +65,7 @@ def dftAddAssignAll (d : Hal.Buf) (t : Hal.Buf) : Hal.Buf :=
 limbs skipped by the `di = 0` product start from zero) -/
 def zeroTail (b : Hal.Buf) (written full : Nat) : Hal.Buf :=
   let b' := { b with size := full }
-  (List.range b'.cols).foldl (fun (acc : Hal.Buf) c =>
-    acc.setAct c ((acc.act c).take written ++ List.replicate (full - written) (Hal.zeroP acc.n))) b'
+  (List.range b'.cols).foldl (fun (acc : Hal.Buf) col => Ks.zeroFrom acc col written) b'
 
 /-- one pass `di` of the `dsize > 1` loop of `glwe_external_product_internal`; state = `(res_dft, res_dft_tmp)` -/
 def epDigitPass (a : Hal.Buf) (g : EpGGSW) (aSize : Nat) (st : Hal.Buf × Hal.Buf) (di : Nat) : Hal.Buf × Hal.Buf :=
@@ -192,8 +192,11 @@ def cmuxAssignNeg (big128 : Bool) (n resBase2k : Nat) (res a : List Col) (g : Ep
 common rows, the remaining rows of `res` zeroed.  `a` and `res` are given as lists of cells
 (`rowsA·colsIn`, `rowsRes·colsIn`). -/
 def matExternalProduct (big128 : Bool) (n resBase2k resSize rowsRes rowsA colsIn : Nat)
-    (a : List (List Col)) (aBase2k : Nat) (g : EpGGSW) : Outcome (List (List Col)) :=
+    (a : List (List Col)) (aBase2k : Nat) (g : EpGGSW) (gglwe : Bool := false) : Outcome (List (List Col)) :=
   if resBase2k ≠ aBase2k then .panic "assert"
+  -- `gglwe_external_product` loops `for row in 0..res.dnum()` and indexes `a.at(row, col)`: a result with more
+  -- rows than the operand trips the bounds assertion of `MatZnx::at` (the GGSW form loops over `min`)
+  else if gglwe && rowsRes > rowsA then .panic "assert"
   else
     (List.range (rowsRes * colsIn)).foldl (fun (acc : Outcome (List (List Col))) q =>
       match acc with
@@ -205,5 +208,36 @@ def matExternalProduct (big128 : Bool) (n resBase2k resSize rowsRes rowsA colsIn
           | .panic p => .panic p
         else .ok (cells ++ [zeroCols n (g.rank + 1) resSize])
       | o => o) (.ok [])
+
+/-- `vec_znx_big_add_small_into(res, 0, a_big, j, b_small, j)` into an accumulator of `resSize` limbs -/
+def bigAddSmallInto (big128 : Bool) (n resSize : Nat) (a b : Col) : Col :=
+  if big128 then ntt120BigAddSmall n resSize a b else vecAdd n resSize a b
+
+/-- `vec_znx_big_sub_small_a(res, 0, a_small, j, b_big, j)`: `a − b` -/
+def bigSubSmallA (big128 : Bool) (n resSize : Nat) (a b : Col) : Col :=
+  if big128 then ntt120BigSubSmallA n resSize a b else vecSub n resSize a b
+
+/-- **`Cswap::cswap(res_a, res_b, s)`**: `(res_a, res_b) ← (res_a + (res_b − res_a)⊡s, res_b − (res_b − res_a)⊡s)`.
+The difference lives in a temporary of `max(size_a, size_b)` limbs; `res_dft` is taken from scratch
+un-zeroed (`res0`, `tmp0`).  Only the same-radix branch is reachable: in the branch
+`res_base2k != s_base2k` the code calls `glwe_sub(&mut tmp_c, res_b, res_a)` with `tmp_c` in the GGSW radix
+and the operands in their own, which trips `assert_eq!(a.base2k(), res.base2k())` of `glwe_sub`. -/
+def cswap (big128 : Bool) (n resBase2k : Nat) (ra rb : List Col) (g : EpGGSW) (res0 tmp0 : List Col) :
+    Outcome (List Col × List Col) :=
+  let cols := g.rank + 1
+  let sa := (ra.getD 0 []).length
+  let sb := (rb.getD 0 []).length
+  if !(g.n == n && g.wf && shapeOk n cols sa ra && shapeOk n cols sb rb) then .panic "assert"
+  else if resBase2k ≠ g.base2k then .panic "assert"
+  else
+    let d := glweSubSameRank n (max sa sb) rb ra
+    let resBig := epInternal d g res0 tmp0
+    let outA := (List.range cols).mapM (fun j =>
+      epBigNormalize big128 n resBase2k sa (bigAddSmallInto big128 n g.size (resBig.getD j []) (ra.getD j [])) g.base2k)
+    let outB := (List.range cols).mapM (fun j =>
+      epBigNormalize big128 n resBase2k sb (bigSubSmallA big128 n g.size (rb.getD j []) (resBig.getD j [])) g.base2k)
+    match outA, outB with
+    | some x, some y => .ok (x, y)
+    | _, _ => .err "fuel"
 
 end Core
